@@ -721,18 +721,20 @@ def implement_prod_func(name):
             _, where_ = np.broadcast_arrays(a._magnitude, where)
             exponents = np.unique(np.sum(where_, axis=axis))
             if len(exponents) == 1 or (len(exponents) == 2 and 0 in exponents):
-                units = a.units ** np.max(exponents)
+                units = a.units ** int(np.max(exponents))
             else:
                 units = registry.dimensionless
                 a = a.to(units)
         elif axis is not None:
             units = a.units ** a.shape[axis]
         elif where is not None:
-            exponent = np.sum(where)
+            exponent = int(np.sum(where))
             units = a.units**exponent
         else:
             exponent = (
-                np.sum(np.logical_not(np.isnan(a))) if name == "nanprod" else a.size
+                int(np.sum(np.logical_not(np.isnan(a))))
+                if name == "nanprod"
+                else a.size
             )
             units = a.units**exponent
 
